@@ -10,6 +10,23 @@ EXPLICIT = ['priority', 'delete', 'allow_new', 'safe', 'default_safe', 'metadata
 IMPLICIT = ['implicit_delete', 'implicit_allow_new', 'implicit_safe']
 
 
+def stale_inherited(nodes, p):
+    """the ORIGINAL node at p does not carry what its parent currently hands down (a merge re-flagged the parent and the propagation stopped early):
+    a round trip that rebuilds the parent through its constructor re-adopts the child, and nothing in the property asks for stale inherited
+    flags to be reproduced (what they mean for merging / evaluation / dumping is judged by the other parts of this oracle)"""
+    if not p or p[:-1] not in nodes:
+        return False
+    parent, child = nodes[p[:-1]], nodes[p]
+    try:
+        kw = parent._get_child_kwargs()
+    except Exception:
+        return False
+    d = child.__dict__
+    if d.get('_implicit_delete') != kw.get('implicit_delete') or d.get('_implicit_allow_new') != kw.get('implicit_allow_new'):
+        return True
+    return d.get('_implicit_safe') is not False and d.get('_implicit_safe') != kw.get('implicit_safe')
+
+
 def describe(root, keys):
     """{path: (type name, selected node_info, native scalar, target)} including key nodes"""
     from awesomeyaml.nodes.function import FunctionNode
@@ -84,8 +101,9 @@ def judge(case):
                             original=repr(a[p])[:300], copy=repr(b[p])[:300])
         if how.startswith('pickle'):
             ai, bi = describe(root, IMPLICIT), describe(cp, IMPLICIT)
+            nodes = tree_paths(root)
             for p in ai:
-                if ai[p] != bi[p]:
+                if ai[p] != bi[p] and not any(stale_inherited(nodes, p[:i]) for i in range(1, len(p) + 1)):
                     return dict(texts=texts, how=how, reason='a pickle round-trip changed inherited flags', path=[str(c) for c in p], original=repr(ai[p][1]), copy=repr(bi[p][1]))
     # ... and is written out (dumped) exactly like the original: tags, reference points, values of every node kind
     from awesomeyaml import yaml as ayaml
